@@ -1001,3 +1001,10 @@ Qed.
 (* on one thread the messages of one item stay together and in order: the log is the concatenation in execution order *)
 Lemma log_serial {A} (msgs : list (list A)) : log_of msgs (seq 0 (length msgs)) = concat msgs.
 Proof. unfold log_of. rewrite pick_all. reflexivity. Qed.
+
+(* lock-protected shared accumulators (error word, citation counters): each item contributes one element of a commutative
+   monoid under the lock; the accumulated value does not depend on the order in which the items take the lock *)
+Lemma locked_accumulator_order_independent (M : Type) (op : M -> M -> M) (e : M) :
+  (forall a b c, op a (op b c) = op (op a b) c) -> (forall a b, op a b = op b a) -> (forall a, op e a = a) ->
+  forall (l l' : list M), Permutation l l' -> msum op e l = msum op e l'.
+Proof. intros Ha Hc Hu l l' H. apply msum_perm; auto. Qed.
